@@ -1,3 +1,79 @@
 package main
 
-func thoroughExtras(c *Ctx, pr *propResult, findings []Finding) {}
+import (
+	"fmt"
+	"sort"
+	"strings"
+)
+
+// thoroughExtras re-loads the module under the build matrix
+// {linux/amd64, linux/386, windows/amd64, darwin/arm64} × {no tags, wireinject},
+// records which files each configuration selects and re-runs the property's
+// rules wherever the selection differs from the default configuration, so
+// build-tagged code cannot hide from the analysis.
+func thoroughExtras(c *Ctx, pr *propResult, findings []Finding) {
+	type cfg struct {
+		goos, goarch string
+		tags         string
+	}
+	var matrix []cfg
+	for _, p := range [][2]string{{"linux", "amd64"}, {"linux", "386"}, {"windows", "amd64"}, {"darwin", "arm64"}} {
+		for _, t := range []string{"", "wireinject"} {
+			matrix = append(matrix, cfg{p[0], p[1], t})
+		}
+	}
+	render := func(fs map[string][]string) string {
+		var ks []string
+		for k := range fs {
+			ks = append(ks, k)
+		}
+		sort.Strings(ks)
+		var sb strings.Builder
+		for _, k := range ks {
+			v := append([]string{}, fs[k]...)
+			sort.Strings(v)
+			sb.WriteString(k + ":" + strings.Join(v, ",") + ";")
+		}
+		return sb.String()
+	}
+	base := render(c.FileSet)
+	var rows []map[string]interface{}
+	for _, m := range matrix {
+		name := m.goos + "/" + m.goarch
+		if m.tags != "" {
+			name += " -tags=" + m.tags
+		}
+		var flags []string
+		if m.tags != "" {
+			flags = []string{"-tags=" + m.tags}
+		}
+		c2, err := loadCtx(c.Repo, c.Tier, []string{"GOOS=" + m.goos, "GOARCH=" + m.goarch, "CGO_ENABLED=0"}, flags)
+		row := map[string]interface{}{"config": name}
+		if err != nil {
+			row["result"] = "load failed: " + err.Error()
+			pr.violations = append(pr.violations, Ob{Rule: "MATRIX", Key: "load:" + name, Pos: "-", Status: stUndecided, Detail: err.Error()})
+			rows = append(rows, row)
+			continue
+		}
+		same := render(c2.FileSet) == base
+		row["same_file_set_as_default"] = same
+		nfiles := 0
+		for _, v := range c2.FileSet {
+			nfiles += len(v)
+		}
+		row["files"] = nfiles
+		if same {
+			row["result"] = "identical file selection; default-configuration verdict applies"
+		} else {
+			p2 := runProperty(c2, pr.prop, findings)
+			row["result"] = fmt.Sprintf("different file selection; rules re-run: %d violations", len(p2.violations))
+			row["file_set"] = c2.FileSet
+			for _, v := range p2.violations {
+				v.Detail = "[" + name + "] " + v.Detail
+				pr.violations = append(pr.violations, v)
+			}
+		}
+		rows = append(rows, row)
+	}
+	pr.extra["build_matrix"] = rows
+}
